@@ -357,12 +357,9 @@ func (v *Verifier) Discharge(work string, tmo int, par int, depth int) []*Result
 	}
 	var wg sync.WaitGroup
 	sem := make(chan struct{}, par)
-	for i, o := range v.obligations {
-		wg.Add(1)
-		go func(i int, o *Obligation) {
-			defer wg.Done()
-			sem <- struct{}{}
-			defer func() { <-sem }()
+	var solveOne func(i int, o *Obligation, tmo int)
+	solveOne = func(i int, o *Obligation, tmo int) {
+		func(i int, o *Obligation) {
 			r := &Result{Name: o.Name, Kind: o.Kind, Func: o.Func, Pos: o.Pos, Src: o.Src, Note: o.Note, Expect: o.Expect, File: files[i], SMTBytes: len(texts[i])}
 			type ans struct {
 				a, out, solver string
@@ -448,6 +445,33 @@ func (v *Verifier) Discharge(work string, tmo int, par int, depth int) []*Result
 			}
 			results[i] = r
 		}(i, o)
+	}
+	for i, o := range v.obligations {
+		wg.Add(1)
+		go func(i int, o *Obligation) {
+			defer wg.Done()
+			sem <- struct{}{}
+			defer func() { <-sem }()
+			solveOne(i, o, tmo)
+		}(i, o)
+	}
+	wg.Wait()
+	// second chance: obligations that failed without a counterexample (timeout / unknown) are retried two at a
+	// time with three times the limit, so that machine load cannot turn a provable obligation into an alarm
+	sem2 := make(chan struct{}, 2)
+	for i, o := range v.obligations {
+		r := results[i]
+		if r.Status == "failed" && r.Answer != "sat" {
+			wg.Add(1)
+			go func(i int, o *Obligation) {
+				defer wg.Done()
+				sem2 <- struct{}{}
+				defer func() { <-sem2 }()
+				first := results[i].Seconds
+				solveOne(i, o, 3*tmo)
+				results[i].Note = strings.TrimSpace(results[i].Note + fmt.Sprintf(" (retried with %ds limit after %.1fs)", 3*tmo, first))
+			}(i, o)
+		}
 	}
 	wg.Wait()
 	return results
